@@ -15,7 +15,7 @@ EXPLANATION = (
     "successful add, and Delta::get_operations re-emits SetMaxVersion iff the member delta has no key-values and max > 0; "
     "(R01.2) the exclusion set used for the digest and both deltas comes from scheduled_for_deletion_nodes (dead-but-not-"
     "scheduled members stay advertised); (R01.3) handshake shape: SYN -> SYN-ACK(own digest, delta computed from the "
-    "received digest); SYN-ACK -> apply received delta then ACK(delta computed from the received digest); ACK -> apply.")
+    "received digest); SYN-ACK -> apply received delta then ACK(delta computed from the received digest); ACK -> apply; (R01.4 = C07/R07.4) truncation cuts only the tail: after a refused key-value nothing else (in particular no SetMaxVersion for that member, no further member) is added, so a receiver never passes versions it was not given.")
 TRUSTED = ["induction from per-handshake strict advance to convergence is NOT part of the check"]
 ASSUMPTIONS = ["the digest and any single key-value fit in one datagram (property's own assumption)"]
 
